@@ -619,5 +619,783 @@ Proof.
   intros W1 W2 E1 E2 E. rewrite <- E1, <- E2. apply tree_unique_gen; assumption.
 Qed.
 
+
+(** * D. Completeness of the statement parser *)
+
+Fixpoint ssize (s : stmt) : nat :=
+  match s with
+  | SBlock ss => S (list_sum (map ssize ss))
+  | SIf _ t e => S (ssize t + match e with Some e => ssize e | None => 0 end)
+  | SWhile _ b => S (ssize b)
+  | SFor _ _ _ b => S (ssize b)
+  | SFun _ _ body => S (list_sum (map ssize body))
+  | _ => 1
+  end.
+
+Lemma ssize_in s ss : In s ss -> ssize s <= list_sum (map ssize ss).
+Proof. intros H. apply list_sum_in. apply in_map, H. Qed.
+
+Definition first_kind (s : stmt) : tkind :=
+  match s with
+  | SExpr e => kind_of_sym (first_sym e)
+  | SPrint _ => TPRINT
+  | SVar _ | SVarList _ => TVAR
+  | SBlock _ => TLEFT_BRACE
+  | SIf _ _ _ => TIF
+  | SWhile _ _ => TWHILE
+  | SFor _ _ _ _ => TFOR
+  | SBreak _ => TBREAK
+  | SContinue _ => TCONTINUE
+  | SReturn _ _ => TRETURN
+  | SFun _ _ _ => TFUN
+  end.
+
+Lemma flat_s_first s : exists x y, flat_s s = x :: y /\ kind_of_sym x = first_kind s.
+Proof.
+  destruct s; cbn [flat_s first_kind]; try (eexists; eexists; split; reflexivity).
+  destruct (flat_first e) as (y & E). rewrite E. eexists; eexists; split; reflexivity.
+Qed.
+
+Lemma WFs_cases s : WFs s ->
+  match s with
+  | SExpr e => WFfull e /\ leftmost_obj e = false
+  | SPrint e => WFfull e
+  | SVar d => WFd d
+  | SVarList ds => 2 <= length ds /\ Forall WFd ds
+  | SBlock ss => Forall WFs ss
+  | SIf c t None => WFfull c /\ WFs t /\ is_decl t = false
+  | SIf c t (Some e) =>
+      WFfull c /\ WFs t /\ is_decl t = false /\ open_if t = false /\ WFs e /\ is_decl e = false
+  | SWhile c b => WFfull c /\ WFs b /\ is_decl b = false
+  | SFor init c inc b => WFinit init /\ WFfull c /\ WFopt inc /\ WFs b /\ is_decl b = false
+  | SBreak _ | SContinue _ => True
+  | SReturn _ v => WFopt v
+  | SFun name ps body => is_reserved name = false /\ length ps <= max_params /\ Forall WFs body
+  end.
+Proof. intros W. inv W; auto 10. Qed.
+
+Lemma starter_not_kw k : starter_kind k = true ->
+  k <> TRIGHT_BRACE /\ k <> TELSE /\ k <> TFUN /\ k <> TVAR /\ k <> TSEMICOLON /\ k <> TRIGHT_PAREN.
+Proof. destruct k; intros H; try discriminate H; repeat split; discriminate. Qed.
+
+Lemma stmt_start_props s : WFs s ->
+  first_kind s <> TRIGHT_BRACE /\ first_kind s <> TELSE /\
+  (is_decl s = false -> first_kind s <> TFUN /\ first_kind s <> TVAR).
+Proof.
+  intros W. apply WFs_cases in W.
+  destruct s; cbn [first_kind is_decl]; try (repeat split; intros; discriminate).
+  destruct W as (W & _). apply first_sym_full, starter_not_kw in W. tauto.
+Qed.
+
+Lemma first_sym_brace_k e : forall k, WFk k e -> leftmost_obj e = false -> kind_of_sym (first_sym e) <> TLEFT_BRACE.
+Proof.
+  induction e; intros k W LO; inv W; cbn [first_sym leftmost_obj kind_of_sym] in *; try discriminate; eauto.
+  - destruct v as [|[|]|x|s]; discriminate.
+  - intros ->. discriminate.
+Qed.
+
+Lemma first_sym_brace e : WFfull e -> leftmost_obj e = false -> kind_of_sym (first_sym e) <> TLEFT_BRACE.
+Proof.
+  intros W LO. inv W; cbn [first_sym leftmost_obj kind_of_sym] in *; try discriminate;
+    eapply first_sym_brace_k; eassumption.
+Qed.
+
+(** ** Consumed prefixes whose tokens are all on line [L] *)
+
+Definition SymPreL (L : N) (s : list tsym) (ts r : list token) : Prop :=
+  exists pre, ts = pre ++ r /\ map sym_of pre = s /\ Forall (fun t => tline t = L) pre.
+
+Lemma SymPreL_SymPre L s ts r : SymPreL L s ts r -> SymPre s ts r.
+Proof. intros (pre & E & M & _). exists pre. auto. Qed.
+
+Lemma SymPreL_nil_inv L ts r : SymPreL L [] ts r -> ts = r.
+Proof. intros H. apply SymPreL_SymPre in H. apply SymPre_nil_inv, H. Qed.
+
+Lemma SymPreL_cons_inv L x s ts r :
+  SymPreL L (x :: s) ts r -> exists t ts', ts = t :: ts' /\ sym_of t = x /\ tline t = L /\ SymPreL L s ts' r.
+Proof.
+  intros (pre & -> & E & F). destruct pre as [|t pre]; [discriminate|]. simpl in E. inv E.
+  apply Forall_cons_iff in F. destruct F as (Lt & F).
+  exists t, (pre ++ r). split; [reflexivity|split; [reflexivity|split; [exact Lt|]]]. exists pre. auto.
+Qed.
+
+Lemma SymPreL_app_inv L s1 s2 ts r :
+  SymPreL L (s1 ++ s2) ts r -> exists mid, SymPreL L s1 ts mid /\ SymPreL L s2 mid r.
+Proof.
+  intros (pre & -> & E & F). apply map_eq_app in E. destruct E as (p1 & p2 & -> & <- & <-).
+  apply Forall_app in F. destruct F as (F1 & F2).
+  exists (p2 ++ r). split.
+  - exists p1. split; [rewrite app_assoc; reflexivity|auto].
+  - exists p2. auto.
+Qed.
+
+Tactic Notation "splc" hyp(H) "as" ident(t) ident(ts') ident(St) ident(Lt) :=
+  apply SymPreL_cons_inv in H; destruct H as (t & ts' & -> & St & Lt & H).
+Tactic Notation "spla" hyp(H) "as" ident(mid) ident(H1) :=
+  apply SymPreL_app_inv in H; destruct H as (mid & H1 & H).
+
+(** "with enough fuel, [g] returns [a], the rest [r] and no diagnostics" *)
+Definition Ev {A} (g : nat -> pres A) (a : A) (r : list token) : Prop :=
+  exists f, forall F, f <= F -> g F = POk a r [].
+
+Section CompleteStmt.
+Variable eofl : N.
+Variable L : N.   (* the line all tokens are on *)
+
+Notation pexpr := (Parser.pexpr eofl).
+Notation pvardecls := (Parser.pvardecls eofl).
+Notation pvar := (Parser.pvar eofl).
+Notation pexprstmt := (Parser.pexprstmt eofl).
+Notation pparams := (Parser.pparams eofl).
+Notation pdecl := (Parser.pdecl eofl).
+Notation pstmt := (Parser.pstmt eofl).
+Notation pblock := (Parser.pblock eofl).
+Notation pprogram := (Parser.pprogram eofl).
+Notation consume := (Parser.consume eofl).
+Notation SymPreL := (SymPreL L).
+
+Ltac pbc K := rewrite (pbind_nil _ _ _ _ (consume_hit eofl _ _ _ _ K)).
+
+Lemma pdecl_stmt f t r : tk t <> TFUN -> tk t <> TVAR -> pdecl (S f) (t :: r) = pstmt f (t :: r).
+Proof. intros H1 H2. rewrite pdecl_S. destruct (tk t); try reflexivity; congruence. Qed.
+
+Lemma pstmt_expr f t r :
+  starter_kind (tk t) = true -> tk t <> TLEFT_BRACE -> pstmt (S f) (t :: r) = pexprstmt f (t :: r).
+Proof. intros H1 H2. rewrite pstmt_S. destruct (tk t); try reflexivity; try discriminate H1; congruence. Qed.
+
+(** an expression clause followed by a token that cannot continue it *)
+Lemma expr_clause e ts rest :
+  WFfull e -> SymPreL (flat_e e) ts rest -> hdoke rest ->
+  exists e', Ev (fun F => pexpr F ts) e' rest /\ erase_e e' = erase_e e.
+Proof.
+  intros W HP Hh. destruct (complete_n eofl (esize e) e (le_n _)) as (_ & _ & E).
+  destruct (E ts rest W (SymPreL_SymPre _ _ _ _ HP) Hh) as (f & e' & Hf & Er).
+  exists e'. split; [|exact Er]. exists f. intros F HF. eapply pexpr_mono_ok; [exact Hf|exact HF].
+Qed.
+
+(** the first token of an expression clause *)
+Lemma expr_first e s ts rest :
+  WFfull e -> SymPreL (flat_e e ++ s) ts rest ->
+  exists t ts', ts = t :: ts' /\ starter_kind (tk t) = true /\ tk t = kind_of_sym (first_sym e).
+Proof.
+  intros W HP. destruct (flat_first e) as (y & E). rewrite E in HP. cbn [app] in HP.
+  splc HP as t ts' St Lt. exists t, ts'. split; [reflexivity|].
+  rewrite (sym_of_kind _ _ St). split; [apply first_sym_full; exact W|reflexivity].
+Qed.
+
+(** an optional expression clause, absent iff the next token is [stop] *)
+Lemma opt_clause stop v ts tstop rest :
+  (stop = TSEMICOLON \/ stop = TRIGHT_PAREN) -> WFopt v ->
+  SymPreL (match v with Some e => flat_e e | None => [] end) ts (tstop :: rest) -> tk tstop = stop ->
+  exists v', Ev (fun F => if check stop ts then POk None ts []
+                          else pbind (pexpr F ts) (fun e r' => POk (Some e) r' [])) v' (tstop :: rest) /\
+             option_map erase_e v' = option_map erase_e v.
+Proof.
+  intros Hstop W HP Ks. destruct v as [e|].
+  - assert (Hh : hdoke (tstop :: rest)).
+    { apply hdoke_kind. rewrite Ks. destruct Hstop as [->| ->]; reflexivity. }
+    destruct (expr_clause e ts (tstop :: rest) W HP Hh) as (e' & (f & Hf) & Er).
+    exists (Some e'). split; [|cbn [option_map]; rewrite Er; reflexivity].
+    exists f. intros F HF.
+    rewrite <- (app_nil_r (flat_e e)) in HP.
+    destruct (expr_first e [] ts (tstop :: rest) W HP) as (t0 & ts0 & E0 & S0 & _).
+    rewrite E0 in *. apply starter_not_kw in S0.
+    rewrite check_miss by (destruct Hstop as [->| ->]; tauto).
+    rewrite (pbind_nil _ _ _ _ (Hf F HF)). reflexivity.
+  - apply SymPreL_nil_inv in HP. subst ts. exists None. split; [|reflexivity].
+    exists 0. intros F _. rewrite (check_hit _ _ _ Ks). reflexivity.
+Qed.
+
+(** the declarators of a [ধরি] statement, up to the semicolon *)
+Lemma decls_complete : forall ds ts tsc rest l0,
+  Forall WFd ds -> ds <> [] -> l0 = L ->
+  SymPreL (join_comma (map flat_d ds)) ts (tsc :: rest) -> tk tsc = TSEMICOLON -> tline tsc = L ->
+  exists ds', Ev (fun F => pvardecls F l0 ts) ds' (tsc :: rest) /\ map erase_d ds' = map erase_d ds.
+Proof.
+  induction ds as [|[[x init] ln] ds IH]; intros ts tsc rest l0 W Hne Hl0 HP Ksc Lsc; [congruence|]. subst l0.
+  apply Forall_cons_iff in W. destruct W as ((Rx & Wi) & Wds).
+  (* the initializer clause, whatever follows ([nx]: a comma or the semicolon, on line L) *)
+  assert (Init : forall ts1 nx rest1,
+            SymPreL (match init with Some e => Sym TEQUAL :: flat_e e | None => [] end) ts1 (nx :: rest1) ->
+            (tk nx = TCOMMA \/ tk nx = TSEMICOLON) ->
+            exists init', Ev (fun F => if check TEQUAL ts1
+                                       then pbind (pexpr F (tl ts1)) (fun e r => POk (Some e) r [])
+                                       else POk None ts1 []) init' (nx :: rest1) /\
+                          option_map erase_e init' = option_map erase_e init).
+  { intros ts1 nx rest1 HP1 Knx. destruct init as [e|].
+    - splc HP1 as teq ts2 Seq Leq. assert (Keq : tk teq = TEQUAL) by (apply (sym_of_kind _ _ Seq)).
+      assert (Hh : hdoke (nx :: rest1)) by (apply hdoke_kind; destruct Knx as [->| ->]; reflexivity).
+      destruct (expr_clause e ts2 (nx :: rest1) Wi HP1 Hh) as (e' & (f & Hf) & Er).
+      exists (Some e'). split; [|cbn [option_map]; rewrite Er; reflexivity].
+      exists f. intros F HF. rewrite (check_hit _ _ _ Keq). cbn [tl].
+      rewrite (pbind_nil _ _ _ _ (Hf F HF)). reflexivity.
+    - apply SymPreL_nil_inv in HP1. subst ts1. exists None. split; [|reflexivity].
+      exists 0. intros F _. rewrite check_miss by (destruct Knx as [->| ->]; discriminate). reflexivity. }
+  destruct ds as [|d2 ds].
+  - cbn [map join_comma flat_d] in HP. splc HP as tn ts1 Sn Ln.
+    apply sym_of_SymId in Sn. destruct Sn as (Kn & Lxn).
+    destruct (Init ts1 tsc rest HP (or_intror Ksc)) as (init' & (f & Hf) & Eri).
+    exists [(x, init', tline tn)]. split; [|cbn [map erase_d]; rewrite Eri; reflexivity].
+    exists (S f). intros F HF. destruct F as [|F]; [lia|].
+    rewrite pvardecls_S. pbc Kn. rewrite Lxn, Rx.
+    rewrite (pbind_nil _ _ _ _ (Hf F ltac:(lia))). cbv zeta.
+    unfold peek_line. rewrite Lsc, N.eqb_refl. cbn [negb]. rewrite andb_false_r.
+    rewrite check_miss by (rewrite Ksc; discriminate). reflexivity.
+  - change (join_comma (map flat_d ((x, init, ln) :: d2 :: ds)))
+      with (flat_d (x, init, ln) ++ Sym TCOMMA :: join_comma (map flat_d (d2 :: ds))) in HP.
+    cbn [flat_d app] in HP. splc HP as tn ts1 Sn Ln.
+    apply sym_of_SymId in Sn. destruct Sn as (Kn & Lxn).
+    spla HP as mid HPi. splc HP as tc ts2 Sc Lc.
+    assert (Kc : tk tc = TCOMMA) by (apply (sym_of_kind _ _ Sc)).
+    destruct (Init ts1 tc ts2 HPi (or_introl Kc)) as (init' & (f1 & Hf1) & Eri).
+    destruct (IH ts2 tsc rest L Wds ltac:(discriminate) eq_refl HP Ksc Lsc) as (more & (f2 & Hf2) & Erm).
+    exists ((x, init', tline tn) :: more). split; [|cbn [map erase_d] in *; rewrite Eri, Erm; reflexivity].
+    exists (S (f1 + f2)). intros F HF. destruct F as [|F]; [lia|].
+    rewrite pvardecls_S. pbc Kn. rewrite Lxn, Rx.
+    rewrite (pbind_nil _ _ _ _ (Hf1 F ltac:(lia))). cbv zeta.
+    unfold peek_line. rewrite Lc, N.eqb_refl. cbn [negb]. rewrite andb_false_r.
+    rewrite (check_hit _ _ _ Kc). cbn [tl].
+    rewrite (pbind_nil _ _ _ _ (Hf2 F ltac:(lia))). reflexivity.
+Qed.
+
+Definition var_stmt (ds : list vdecl) : stmt := match ds with [d] => SVar d | _ => SVarList ds end.
+
+Lemma erase_var_stmt ds' ds :
+  map erase_d ds' = map erase_d ds -> erase_s (var_stmt ds') = erase_s (var_stmt ds).
+Proof.
+  intros E. destruct ds' as [|a [|a2 l']]; destruct ds as [|b [|b2 l]]; try discriminate E.
+  - reflexivity.
+  - cbn [var_stmt erase_s]. cbn [map] in E. injection E as ->. reflexivity.
+  - cbn [var_stmt erase_s]. rewrite E. reflexivity.
+Qed.
+
+(** a [ধরি] statement after its keyword *)
+Lemma var_complete ds ts rest :
+  ds <> [] -> Forall WFd ds ->
+  SymPreL (join_comma (map flat_d ds) ++ [Sym TSEMICOLON]) ts rest ->
+  exists ds', Ev (fun F => pvar F ts) (var_stmt ds') rest /\ map erase_d ds' = map erase_d ds.
+Proof.
+  intros Hne W HP. spla HP as mid HPd. splc HP as tsc ts2 Ssc Lsc. apply SymPreL_nil_inv in HP. subst ts2.
+  assert (Ksc : tk tsc = TSEMICOLON) by (apply (sym_of_kind _ _ Ssc)).
+  assert (Hl0 : peek_line eofl ts = L).
+  { destruct ds as [|[[x init] ln] ds]; [congruence|].
+    match type of HPd with context [join_comma ?l0] => assert (E : exists y, join_comma l0 = SymId x :: y) end.
+    { destruct ds as [|d2 ds]; cbn [map join_comma flat_d]; [eexists; reflexivity|].
+      eexists. cbn [app]. reflexivity. }
+    destruct E as (y & E). pose proof HPd as HPd'. rewrite E in HPd'.
+    apply SymPreL_cons_inv in HPd'. destruct HPd' as (tn & ts1 & -> & _ & Ln & _). exact Ln. }
+  destruct (decls_complete ds ts tsc rest (peek_line eofl ts) W Hne Hl0 HPd Ksc Lsc) as (ds' & (f & Hf) & Er).
+  exists ds'. split; [|exact Er]. exists f. intros F HF. unfold Parser.pvar.
+  rewrite (pbind_nil _ _ _ _ (Hf F HF)). pbc Ksc.
+  destruct ds' as [|a [|a2 l']]; reflexivity.
+Qed.
+
+(** the parameter list of a function *)
+Lemma params_complete : forall ps n ts trp rest,
+  ps <> [] -> n + length ps <= max_params ->
+  SymPreL (join_comma (map (fun p => [SymId p]) ps)) ts (trp :: rest) -> tk trp = TRIGHT_PAREN ->
+  Ev (fun F => pparams F n ts) ps (trp :: rest).
+Proof.
+  induction ps as [|p ps IH]; intros n ts trp rest Hne Hlen HP Krp; [congruence|].
+  assert (Hn : Nat.leb max_params n = false) by (apply Nat.leb_gt; simpl in Hlen; lia).
+  destruct ps as [|p2 ps].
+  - cbn [map join_comma] in HP. splc HP as tp ts1 Sp Lp. apply SymPreL_nil_inv in HP. subst ts1.
+    apply sym_of_SymId in Sp. destruct Sp as (Kp & Lxp).
+    exists 1. intros F HF. destruct F as [|F]; [lia|].
+    rewrite pparams_S, Hn. pbc Kp. rewrite check_miss by (rewrite Krp; discriminate).
+    rewrite Lxp. reflexivity.
+  - change (join_comma (map (fun p0 => [SymId p0]) (p :: p2 :: ps)))
+      with ([SymId p] ++ Sym TCOMMA :: join_comma (map (fun p0 => [SymId p0]) (p2 :: ps))) in HP.
+    cbn [app] in HP. splc HP as tp ts1 Sp Lp. splc HP as tc ts2 Sc Lc.
+    apply sym_of_SymId in Sp. destruct Sp as (Kp & Lxp).
+    assert (Kc : tk tc = TCOMMA) by (apply (sym_of_kind _ _ Sc)).
+    destruct (IH (S n) ts2 trp rest ltac:(discriminate) ltac:(simpl in *; lia) HP Krp) as (f & Hf).
+    exists (S f). intros F HF. destruct F as [|F]; [lia|].
+    rewrite pparams_S, Hn. pbc Kp. rewrite (check_hit _ _ _ Kc). cbn [tl].
+    rewrite (pbind_nil _ _ _ _ (Hf F ltac:(lia))). rewrite Lxp. reflexivity.
+Qed.
+
+
+Definition erase_init (i : option stmt) : option stmt :=
+  match i with Some s => Some (erase_s s) | None => None end.
+
+(** the initializer clause of [ফর] *)
+Lemma init_clause init ts1 mid1 :
+  WFinit init ->
+  SymPreL (match init with Some s => flat_s s | None => [Sym TSEMICOLON] end) ts1 mid1 ->
+  exists init',
+    Ev (fun F => if check TSEMICOLON ts1 then POk None (tl ts1) []
+                 else if check TVAR ts1 then pbind (pvar F (tl ts1)) (fun s r' => POk (Some s) r' [])
+                 else pbind (pexprstmt F ts1) (fun s r' => POk (Some s) r' [])) init' mid1 /\
+    erase_init init' = erase_init init.
+Proof.
+  intros Wi HP. destruct init as [s|].
+  - destruct s as [e| |d|ds| | | | | | | |]; cbn [WFinit] in Wi; try contradiction.
+    + (* expression statement *)
+      cbn [flat_s] in HP.
+      destruct (expr_first e _ _ _ Wi HP) as (t0 & ts0 & E0 & S0 & _).
+      spla HP as mid HPe. splc HP as tsc ts2 Ssc Lsc. apply SymPreL_nil_inv in HP. subst ts2.
+      assert (Ksc : tk tsc = TSEMICOLON) by (apply (sym_of_kind _ _ Ssc)).
+      assert (Hh : hdoke (tsc :: mid1)) by (apply hdoke_kind; rewrite Ksc; reflexivity).
+      destruct (expr_clause e ts1 (tsc :: mid1) Wi HPe Hh) as (e' & (f & Hf) & Er).
+      exists (Some (SExpr e')). split; [|cbn [erase_init erase_s]; rewrite Er; reflexivity].
+      exists f. intros F HF. subst ts1. apply starter_not_kw in S0.
+      rewrite check_miss by tauto. rewrite check_miss by tauto.
+      unfold Parser.pexprstmt. rewrite (pbind_nil _ _ _ _ (Hf F HF)).
+      rewrite (consume_lenient_hit eofl _ _ _ _ Ksc). reflexivity.
+    + (* one declarator *)
+      cbn [flat_s] in HP. splc HP as tv ts2 Sv Lv.
+      assert (Kv : tk tv = TVAR) by (apply (sym_of_kind _ _ Sv)).
+      destruct (var_complete [d] ts2 mid1 ltac:(discriminate) (Forall_cons _ Wi (Forall_nil _)) HP)
+        as (ds' & (f & Hf) & Er).
+      exists (Some (var_stmt ds')). split.
+      * exists f. intros F HF. rewrite check_miss by (rewrite Kv; discriminate).
+        rewrite (check_hit _ _ _ Kv). cbn [tl]. rewrite (pbind_nil _ _ _ _ (Hf F HF)). reflexivity.
+      * cbn [erase_init]. f_equal. apply (erase_var_stmt ds' [d] Er).
+    + (* several declarators *)
+      destruct Wi as (Hlen & Wds). cbn [flat_s] in HP. splc HP as tv ts2 Sv Lv.
+      assert (Kv : tk tv = TVAR) by (apply (sym_of_kind _ _ Sv)).
+      assert (Hne : ds <> []) by (intros ->; simpl in Hlen; lia).
+      destruct (var_complete ds ts2 mid1 Hne Wds HP) as (ds' & (f & Hf) & Er).
+      exists (Some (var_stmt ds')). split.
+      * exists f. intros F HF. rewrite check_miss by (rewrite Kv; discriminate).
+        rewrite (check_hit _ _ _ Kv). cbn [tl]. rewrite (pbind_nil _ _ _ _ (Hf F HF)). reflexivity.
+      * cbn [erase_init]. f_equal. rewrite (erase_var_stmt ds' ds Er).
+        destruct ds as [|d1 [|d2 ds0]]; [congruence|simpl in Hlen; lia|reflexivity].
+  - splc HP as tsc ts2 Ssc Lsc. apply SymPreL_nil_inv in HP. subst ts2.
+    assert (Ksc : tk tsc = TSEMICOLON) by (apply (sym_of_kind _ _ Ssc)).
+    exists None. split; [|reflexivity]. exists 0. intros F _.
+    rewrite (check_hit _ _ _ Ksc). reflexivity.
+Qed.
+
+(** what follows a statement inside a block is not [নাহয়] *)
+Lemma block_tail_noelse ss mid rest :
+  Forall WFs ss -> SymPreL (concat (map flat_s ss) ++ [Sym TRIGHT_BRACE]) mid rest -> check TELSE mid = false.
+Proof.
+  intros W HP. destruct ss as [|s2 ss].
+  - cbn [map concat app] in HP. splc HP as tcl ts1 Scl Lcl.
+    apply check_miss. rewrite (sym_of_kind _ _ Scl). discriminate.
+  - apply Forall_cons_iff in W. destruct W as (W2 & _).
+    destruct (flat_s_first s2) as (x & y & E & K). cbn [map concat] in HP. rewrite E in HP. cbn [app] in HP.
+    splc HP as t0 ts0 S0 L0. apply check_miss. rewrite (sym_of_kind _ _ S0), K.
+    apply stmt_start_props in W2. tauto.
+Qed.
+
+Definition DeclC (s : stmt) : Prop :=
+  forall ts rest, SymPreL (flat_s s) ts rest -> (open_if s = true -> check TELSE rest = false) ->
+  exists s', Ev (fun F => pdecl F ts) s' rest /\ erase_s s' = erase_s s.
+
+(** the statements of a block, up to and including the closing brace *)
+Lemma block_complete n : (forall s, ssize s <= n -> WFs s -> DeclC s) ->
+  forall ss ts rest, list_sum (map ssize ss) <= n -> Forall WFs ss ->
+  SymPreL (concat (map flat_s ss) ++ [Sym TRIGHT_BRACE]) ts rest ->
+  exists ss', Ev (fun F => pblock F ts) ss' rest /\ map erase_s ss' = map erase_s ss.
+Proof.
+  intros IHn. induction ss as [|a ss IH]; intros ts rest Hs W HP.
+  - cbn [map concat app] in HP. splc HP as tcl ts1 Scl Lcl. apply SymPreL_nil_inv in HP. subst ts1.
+    assert (Kcl : tk tcl = TRIGHT_BRACE) by (apply (sym_of_kind _ _ Scl)).
+    exists []. split; [|reflexivity]. exists 1. intros F HF. destruct F as [|F]; [lia|].
+    rewrite pblock_S, Kcl, tkind_eqb_refl. reflexivity.
+  - apply Forall_cons_iff in W. destruct W as (Wa & Wss). simpl in Hs.
+    cbn [map concat] in HP. rewrite <- app_assoc in HP.
+    destruct (flat_s_first a) as (x & y & Ea & Ka).
+    assert (Hfirst : exists t0 ts0, ts = t0 :: ts0 /\ tk t0 = first_kind a).
+    { pose proof HP as HP'. rewrite Ea in HP'. cbn [app] in HP'.
+      apply SymPreL_cons_inv in HP'. destruct HP' as (t0 & ts0 & E0 & S0 & _).
+      exists t0, ts0. split; [exact E0|]. rewrite (sym_of_kind _ _ S0). exact Ka. }
+    spla HP as mid HPa.
+    pose proof (block_tail_noelse ss mid rest Wss HP) as Hel.
+    destruct (IHn a ltac:(lia) Wa ts mid HPa (fun _ => Hel)) as (a' & (f1 & Hf1) & Era).
+    destruct (IH mid rest ltac:(lia) Wss HP) as (ss' & (f2 & Hf2) & Erss).
+    exists (a' :: ss'). split; [|cbn [map]; rewrite Era, Erss; reflexivity].
+    exists (S (f1 + f2)). intros F HF. destruct F as [|F]; [lia|].
+    destruct Hfirst as (t0 & ts0 & E0 & K0). subst ts.
+    rewrite pblock_S.
+    rewrite (tkind_eqb_neq (tk t0) TRIGHT_BRACE) by (rewrite K0; apply stmt_start_props in Wa; tauto).
+    rewrite (pbind_nil _ _ _ _ (Hf1 F ltac:(lia))). rewrite (pbind_nil _ _ _ _ (Hf2 F ltac:(lia))).
+    reflexivity.
+Qed.
+
+
+Definition StmtC' (s : stmt) : Prop :=
+  forall ts rest, SymPreL (flat_s s) ts rest -> (open_if s = true -> check TELSE rest = false) ->
+  exists s', Ev (fun F => pstmt F ts) s' rest /\ erase_s s' = erase_s s.
+
+Lemma stmt_complete_n : forall n s, ssize s <= n -> WFs s ->
+  (is_decl s = false -> StmtC' s) /\ DeclC s.
+Proof.
+  induction n as [|n IH]; intros s Hs W. { destruct s; simpl in Hs; lia. }
+  assert (IHd : forall s0, ssize s0 <= n -> WFs s0 -> DeclC s0) by (intros s0 H0 W0; apply IH; assumption).
+  assert (IHs : forall s0, ssize s0 <= n -> WFs s0 -> is_decl s0 = false -> StmtC' s0)
+    by (intros s0 H0 W0; apply IH; assumption).
+  pose proof (WFs_cases s W) as Wc.
+  assert (PS : is_decl s = false -> StmtC' s).
+  { intros Hd ts rest HP Hel.
+    destruct s as [e|e|d|ds|ss|c t [el|]|c b|init c inc b|ln|ln|ln v|name ps body];
+      try discriminate Hd; cbn [flat_s] in HP.
+    - (* expression statement *)
+      destruct Wc as (We & Lo).
+      destruct (expr_first e _ _ _ We HP) as (t0 & ts0 & E0 & S0 & K0).
+      spla HP as mid HPe. splc HP as tsc ts2 Ssc Lsc. apply SymPreL_nil_inv in HP. subst ts2.
+      assert (Ksc : tk tsc = TSEMICOLON) by (apply (sym_of_kind _ _ Ssc)).
+      assert (Hh : hdoke (tsc :: rest)) by (apply hdoke_kind; rewrite Ksc; reflexivity).
+      destruct (expr_clause e ts (tsc :: rest) We HPe Hh) as (e' & (f & Hf) & Er).
+      exists (SExpr e'). split; [|cbn [erase_s]; rewrite Er; reflexivity].
+      exists (S f). intros F HF. destruct F as [|F]; [lia|]. subst ts.
+      rewrite pstmt_expr; [|exact S0|rewrite K0; apply first_sym_brace; assumption].
+      unfold Parser.pexprstmt. rewrite (pbind_nil _ _ _ _ (Hf F ltac:(lia))).
+      rewrite (consume_lenient_hit eofl _ _ _ _ Ksc). reflexivity.
+    - (* print *)
+      splc HP as tp ts1 Sp Lp. spla HP as mid HPe. splc HP as tsc ts2 Ssc Lsc.
+      apply SymPreL_nil_inv in HP. subst ts2.
+      assert (Kp : tk tp = TPRINT) by (apply (sym_of_kind _ _ Sp)).
+      assert (Ksc : tk tsc = TSEMICOLON) by (apply (sym_of_kind _ _ Ssc)).
+      assert (Hh : hdoke (tsc :: rest)) by (apply hdoke_kind; rewrite Ksc; reflexivity).
+      destruct (expr_clause e ts1 (tsc :: rest) Wc HPe Hh) as (e' & (f & Hf) & Er).
+      exists (SPrint e'). split; [|cbn [erase_s]; rewrite Er; reflexivity].
+      exists (S f). intros F HF. destruct F as [|F]; [lia|].
+      rewrite pstmt_S. cbv beta iota. rewrite Kp. cbv beta iota.
+      rewrite (pbind_nil _ _ _ _ (Hf F ltac:(lia))).
+      rewrite (consume_lenient_hit eofl _ _ _ _ Ksc). reflexivity.
+    - (* block *)
+      simpl in Hs. splc HP as tlb ts1 Slb Llb.
+      assert (Klb : tk tlb = TLEFT_BRACE) by (apply (sym_of_kind _ _ Slb)).
+      destruct (block_complete n IHd ss ts1 rest ltac:(lia) Wc HP) as (ss' & (f & Hf) & Er).
+      exists (SBlock ss'). split; [|cbn [erase_s]; rewrite Er; reflexivity].
+      exists (S f). intros F HF. destruct F as [|F]; [lia|].
+      rewrite pstmt_S. cbv beta iota. rewrite Klb. cbv beta iota.
+      rewrite (pbind_nil _ _ _ _ (Hf F ltac:(lia))). reflexivity.
+    - (* if / else *)
+      destruct Wc as (Wcnd & Wt & Dt & Ot & We & De). simpl in Hs.
+      splc HP as tif ts1 Sif Lif. splc HP as tlp ts2 Slp Llp. spla HP as mid1 HPc.
+      splc HP as trp ts3 Srp Lrp. spla HP as mid2 HPt. splc HP as tel ts4 Sel Lel.
+      assert (Kif : tk tif = TIF) by (apply (sym_of_kind _ _ Sif)).
+      assert (Klp : tk tlp = TLEFT_PAREN) by (apply (sym_of_kind _ _ Slp)).
+      assert (Krp : tk trp = TRIGHT_PAREN) by (apply (sym_of_kind _ _ Srp)).
+      assert (Kel : tk tel = TELSE) by (apply (sym_of_kind _ _ Sel)).
+      assert (Hh : hdoke (trp :: ts3)) by (apply hdoke_kind; rewrite Krp; reflexivity).
+      destruct (expr_clause c ts2 (trp :: ts3) Wcnd HPc Hh) as (c' & (f1 & Hf1) & Erc).
+      destruct (IHs t ltac:(lia) Wt Dt ts3 (tel :: ts4) HPt ltac:(intros Habs; congruence))
+        as (t' & (f2 & Hf2) & Ert).
+      destruct (IHs el ltac:(lia) We De ts4 rest HP Hel) as (el' & (f3 & Hf3) & Ere).
+      exists (SIf c' t' (Some el')). split; [|cbn [erase_s]; rewrite Erc, Ert, Ere; reflexivity].
+      exists (S (f1 + f2 + f3)). intros F HF. destruct F as [|F]; [lia|].
+      rewrite pstmt_S. cbv beta iota. rewrite Kif. cbv beta iota. pbc Klp.
+      rewrite (pbind_nil _ _ _ _ (Hf1 F ltac:(lia))). pbc Krp.
+      rewrite (pbind_nil _ _ _ _ (Hf2 F ltac:(lia))). rewrite (check_hit _ _ _ Kel). cbn [tl].
+      rewrite (pbind_nil _ _ _ _ (Hf3 F ltac:(lia))). reflexivity.
+    - (* if without else *)
+      destruct Wc as (Wcnd & Wt & Dt). simpl in Hs. rewrite app_nil_r in HP.
+      splc HP as tif ts1 Sif Lif. splc HP as tlp ts2 Slp Llp. spla HP as mid1 HPc.
+      splc HP as trp ts3 Srp Lrp.
+      assert (Kif : tk tif = TIF) by (apply (sym_of_kind _ _ Sif)).
+      assert (Klp : tk tlp = TLEFT_PAREN) by (apply (sym_of_kind _ _ Slp)).
+      assert (Krp : tk trp = TRIGHT_PAREN) by (apply (sym_of_kind _ _ Srp)).
+      assert (Hh : hdoke (trp :: ts3)) by (apply hdoke_kind; rewrite Krp; reflexivity).
+      destruct (expr_clause c ts2 (trp :: ts3) Wcnd HPc Hh) as (c' & (f1 & Hf1) & Erc).
+      pose proof (Hel eq_refl) as Hne.
+      destruct (IHs t ltac:(lia) Wt Dt ts3 rest HP (fun _ => Hne)) as (t' & (f2 & Hf2) & Ert).
+      exists (SIf c' t' None). split; [|cbn [erase_s]; rewrite Erc, Ert; reflexivity].
+      exists (S (f1 + f2)). intros F HF. destruct F as [|F]; [lia|].
+      rewrite pstmt_S. cbv beta iota. rewrite Kif. cbv beta iota. pbc Klp.
+      rewrite (pbind_nil _ _ _ _ (Hf1 F ltac:(lia))). pbc Krp.
+      rewrite (pbind_nil _ _ _ _ (Hf2 F ltac:(lia))). rewrite Hne. reflexivity.
+    - (* while *)
+      destruct Wc as (Wcnd & Wb & Db). simpl in Hs.
+      splc HP as twh ts1 Swh Lwh. splc HP as tlp ts2 Slp Llp. spla HP as mid1 HPc.
+      splc HP as trp ts3 Srp Lrp.
+      assert (Kwh : tk twh = TWHILE) by (apply (sym_of_kind _ _ Swh)).
+      assert (Klp : tk tlp = TLEFT_PAREN) by (apply (sym_of_kind _ _ Slp)).
+      assert (Krp : tk trp = TRIGHT_PAREN) by (apply (sym_of_kind _ _ Srp)).
+      assert (Hh : hdoke (trp :: ts3)) by (apply hdoke_kind; rewrite Krp; reflexivity).
+      destruct (expr_clause c ts2 (trp :: ts3) Wcnd HPc Hh) as (c' & (f1 & Hf1) & Erc).
+      destruct (IHs b ltac:(lia) Wb Db ts3 rest HP Hel) as (b' & (f2 & Hf2) & Erb).
+      exists (SWhile c' b'). split; [|cbn [erase_s]; rewrite Erc, Erb; reflexivity].
+      exists (S (f1 + f2)). intros F HF. destruct F as [|F]; [lia|].
+      rewrite pstmt_S. cbv beta iota. rewrite Kwh. cbv beta iota. pbc Klp.
+      rewrite (pbind_nil _ _ _ _ (Hf1 F ltac:(lia))). pbc Krp.
+      rewrite (pbind_nil _ _ _ _ (Hf2 F ltac:(lia))). reflexivity.
+    - (* for *)
+      destruct Wc as (Wi & Wcnd & Winc & Wb & Db). simpl in Hs.
+      splc HP as tfor ts1 Sfor Lfor. splc HP as tlp ts2 Slp Llp.
+      spla HP as mid1 HPi. spla HP as mid2 HPc. splc HP as tsc ts3 Ssc Lsc.
+      spla HP as mid3 HPinc. splc HP as trp ts4 Srp Lrp.
+      assert (Kfor : tk tfor = TFOR) by (apply (sym_of_kind _ _ Sfor)).
+      assert (Klp : tk tlp = TLEFT_PAREN) by (apply (sym_of_kind _ _ Slp)).
+      assert (Ksc : tk tsc = TSEMICOLON) by (apply (sym_of_kind _ _ Ssc)).
+      assert (Krp : tk trp = TRIGHT_PAREN) by (apply (sym_of_kind _ _ Srp)).
+      destruct (init_clause init ts2 mid1 Wi HPi) as (init' & (f1 & Hf1) & Eri).
+      assert (Hh : hdoke (tsc :: ts3)) by (apply hdoke_kind; rewrite Ksc; reflexivity).
+      destruct (expr_clause c mid1 (tsc :: ts3) Wcnd HPc Hh) as (c' & (f2 & Hf2) & Erc).
+      assert (Hc1 : check TSEMICOLON mid1 = false).
+      { rewrite <- (app_nil_r (flat_e c)) in HPc.
+        destruct (expr_first c [] mid1 _ Wcnd HPc) as (t0 & ts0 & -> & S0 & _).
+        apply starter_not_kw in S0. apply check_miss. tauto. }
+      destruct (opt_clause TRIGHT_PAREN inc ts3 trp ts4 (or_intror eq_refl) Winc HPinc Krp)
+        as (inc' & (f3 & Hf3) & Erinc).
+      destruct (IHs b ltac:(lia) Wb Db ts4 rest HP Hel) as (b' & (f4 & Hf4) & Erb).
+      exists (SFor init' c' inc' b'). split.
+      + exists (S (f1 + f2 + f3 + f4)). intros F HF. destruct F as [|F]; [lia|].
+        rewrite pstmt_S. cbv beta iota. rewrite Kfor. cbv beta iota. pbc Klp.
+        rewrite (pbind_nil _ _ _ _ (Hf1 F ltac:(lia))).
+        rewrite Hc1. rewrite (pbind_nil _ _ _ _ (Hf2 F ltac:(lia))).
+        rewrite (pbind_nil _ _ _ (tsc :: ts3) eq_refl). pbc Ksc.
+        rewrite (pbind_nil _ _ _ _ (Hf3 F ltac:(lia))). pbc Krp.
+        rewrite (pbind_nil _ _ _ _ (Hf4 F ltac:(lia))). reflexivity.
+      + change (erase_s (SFor init' c' inc' b'))
+          with (SFor (erase_init init') (erase_e c') (option_map erase_e inc') (erase_s b')).
+        change (erase_s (SFor init c inc b))
+          with (SFor (erase_init init) (erase_e c) (option_map erase_e inc) (erase_s b)).
+        rewrite Eri, Erc, Erinc, Erb. reflexivity.
+    - (* break *)
+      splc HP as tb ts1 Sb Lb. splc HP as tsc ts2 Ssc Lsc. apply SymPreL_nil_inv in HP. subst ts2.
+      assert (Kb : tk tb = TBREAK) by (apply (sym_of_kind _ _ Sb)).
+      assert (Ksc : tk tsc = TSEMICOLON) by (apply (sym_of_kind _ _ Ssc)).
+      exists (SBreak (tline tsc)). split; [|reflexivity].
+      exists 1. intros F HF. destruct F as [|F]; [lia|].
+      rewrite pstmt_S. cbv beta iota. rewrite Kb. cbv beta iota. pbc Ksc. reflexivity.
+    - (* continue *)
+      splc HP as tb ts1 Sb Lb. splc HP as tsc ts2 Ssc Lsc. apply SymPreL_nil_inv in HP. subst ts2.
+      assert (Kb : tk tb = TCONTINUE) by (apply (sym_of_kind _ _ Sb)).
+      assert (Ksc : tk tsc = TSEMICOLON) by (apply (sym_of_kind _ _ Ssc)).
+      exists (SContinue (tline tsc)). split; [|reflexivity].
+      exists 1. intros F HF. destruct F as [|F]; [lia|].
+      rewrite pstmt_S. cbv beta iota. rewrite Kb. cbv beta iota. pbc Ksc. reflexivity.
+    - (* return *)
+      splc HP as tr ts1 Sr Lr. spla HP as mid HPv. splc HP as tsc ts2 Ssc Lsc.
+      apply SymPreL_nil_inv in HP. subst ts2.
+      assert (Kr : tk tr = TRETURN) by (apply (sym_of_kind _ _ Sr)).
+      assert (Ksc : tk tsc = TSEMICOLON) by (apply (sym_of_kind _ _ Ssc)).
+      destruct (opt_clause TSEMICOLON v ts1 tsc rest (or_introl eq_refl) Wc HPv Ksc) as (v' & (f & Hf) & Erv).
+      exists (SReturn (tline tr) v'). split; [|cbn [erase_s]; rewrite Erv; reflexivity].
+      exists (S f). intros F HF. destruct F as [|F]; [lia|].
+      rewrite pstmt_S. cbv beta iota. rewrite Kr. cbv beta iota.
+      rewrite (pbind_nil _ _ _ _ (Hf F ltac:(lia))). pbc Ksc. reflexivity. }
+  split; [exact PS|].
+  intros ts rest HP Hel.
+  destruct (is_decl s) eqn:D.
+  - (* declarations *)
+    destruct s as [e|e|d|ds|ss|c t el|c b|init c inc b|ln|ln|ln v|name ps body];
+      try discriminate D; cbn [flat_s] in HP.
+    + (* one declarator *)
+      splc HP as tv ts1 Sv Lv. assert (Kv : tk tv = TVAR) by (apply (sym_of_kind _ _ Sv)).
+      destruct (var_complete [d] ts1 rest ltac:(discriminate) (Forall_cons _ Wc (Forall_nil _)) HP)
+        as (ds' & (f & Hf) & Er).
+      exists (var_stmt ds'). split; [|apply (erase_var_stmt ds' [d] Er)].
+      exists (S f). intros F HF. destruct F as [|F]; [lia|].
+      rewrite pdecl_S. cbv beta iota. rewrite Kv. cbv beta iota. apply Hf. lia.
+    + (* several declarators *)
+      destruct Wc as (Hlen & Wds).
+      splc HP as tv ts1 Sv Lv. assert (Kv : tk tv = TVAR) by (apply (sym_of_kind _ _ Sv)).
+      assert (Hne : ds <> []) by (intros ->; simpl in Hlen; lia).
+      destruct (var_complete ds ts1 rest Hne Wds HP) as (ds' & (f & Hf) & Er).
+      exists (var_stmt ds'). split.
+      * exists (S f). intros F HF. destruct F as [|F]; [lia|].
+        rewrite pdecl_S. cbv beta iota. rewrite Kv. cbv beta iota. apply Hf. lia.
+      * rewrite (erase_var_stmt ds' ds Er).
+        destruct ds as [|d1 [|d2 ds0]]; [congruence|simpl in Hlen; lia|reflexivity].
+    + (* function *)
+      destruct Wc as (Rn & Lps & Wbody). simpl in Hs.
+      splc HP as tfun ts1 Sfun Lfun. splc HP as tnm ts2 Snm Lnm. splc HP as tlp ts3 Slp Llp.
+      spla HP as mid HPps. splc HP as trp ts4 Srp Lrp. splc HP as tlb ts5 Slb Llb.
+      assert (Kfun : tk tfun = TFUN) by (apply (sym_of_kind _ _ Sfun)).
+      apply sym_of_SymId in Snm. destruct Snm as (Knm & Lxnm).
+      assert (Klp : tk tlp = TLEFT_PAREN) by (apply (sym_of_kind _ _ Slp)).
+      assert (Krp : tk trp = TRIGHT_PAREN) by (apply (sym_of_kind _ _ Srp)).
+      assert (Klb : tk tlb = TLEFT_BRACE) by (apply (sym_of_kind _ _ Slb)).
+      assert (Hps : Ev (fun F => if check TRIGHT_PAREN ts3 then POk [] ts3 [] else pparams F 0 ts3) ps (trp :: tlb :: ts5)).
+      { destruct ps as [|p ps].
+        - cbn [map join_comma] in HPps. apply SymPreL_nil_inv in HPps. subst ts3.
+          exists 0. intros F _. rewrite (check_hit _ _ _ Krp). reflexivity.
+        - destruct (params_complete (p :: ps) 0 ts3 trp (tlb :: ts5) ltac:(discriminate) Lps HPps Krp) as (f & Hf).
+          exists f. intros F HF.
+          assert (E : exists y, join_comma (map (fun p0 => [SymId p0]) (p :: ps)) = SymId p :: y).
+          { destruct ps as [|p2 ps]; cbn [map join_comma]; eexists; cbn [app]; reflexivity. }
+          destruct E as (y & E). rewrite E in HPps. splc HPps as tp ts0 Sp Lp.
+          rewrite check_miss by (rewrite (sym_of_kind _ _ Sp); discriminate). apply Hf. exact HF. }
+      destruct Hps as (f1 & Hf1).
+      destruct (block_complete n IHd body ts5 rest ltac:(lia) Wbody HP) as (body' & (f2 & Hf2) & Erb).
+      exists (SFun name ps body'). split; [|cbn [erase_s]; rewrite Erb; reflexivity].
+      exists (S (f1 + f2)). intros F HF. destruct F as [|F]; [lia|].
+      rewrite pdecl_S. cbv beta iota. rewrite Kfun. cbv beta iota. pbc Knm. rewrite Lxnm, Rn. pbc Klp.
+      rewrite (pbind_nil _ _ _ _ (Hf1 F ltac:(lia))). pbc Krp. pbc Klb.
+      rewrite (pbind_nil _ _ _ _ (Hf2 F ltac:(lia))). reflexivity.
+  - (* statements *)
+    destruct (PS eq_refl ts rest HP Hel) as (s' & (f & Hf) & Er). exists s'. split; [|exact Er].
+    exists (S f). intros F HF. destruct F as [|F]; [lia|].
+    destruct (flat_s_first s) as (x & y & E & K). rewrite E in HP. splc HP as t0 ts0 S0 L0.
+    pose proof (stmt_start_props s W) as (_ & _ & Hnd). specialize (Hnd D).
+    rewrite pdecl_stmt; [apply Hf; lia| |]; rewrite (sym_of_kind _ _ S0), K; tauto.
+Qed.
+
+End CompleteStmt.
+
+Lemma prog_complete_pre eofl L : forall ss ts,
+  Forall WFs ss -> SymPreL L (concat (map flat_s ss)) ts [] ->
+  exists ss', Ev (fun F => pprogram eofl F ts) ss' [] /\ map erase_s ss' = map erase_s ss.
+Proof.
+  induction ss as [|a ss IH]; intros ts W HP.
+  - cbn [map concat] in HP. apply SymPreL_nil_inv in HP. subst ts.
+    exists []. split; [|reflexivity]. exists 1. intros F HF. destruct F as [|F]; [lia|]. reflexivity.
+  - apply Forall_cons_iff in W. destruct W as (Wa & Wss). cbn [map concat] in HP.
+    destruct (flat_s_first a) as (x & y & Ea & Ka).
+    assert (Hfirst : exists t0 ts0, ts = t0 :: ts0).
+    { pose proof HP as HP'. rewrite Ea in HP'. cbn [app] in HP'.
+      apply SymPreL_cons_inv in HP'. destruct HP' as (t0 & ts0 & E0 & _). eauto. }
+    spla HP as mid HPa.
+    assert (Hel : check TELSE mid = false).
+    { destruct ss as [|s2 ss].
+      - cbn [map concat] in HP. apply SymPreL_nil_inv in HP. subst mid. reflexivity.
+      - apply Forall_cons_iff in Wss. destruct Wss as (W2 & _).
+        destruct (flat_s_first s2) as (x2 & y2 & E2 & K2). pose proof HP as HP'.
+        cbn [map concat] in HP'. rewrite E2 in HP'. cbn [app] in HP'.
+        apply SymPreL_cons_inv in HP'. destruct HP' as (t1 & ts1 & -> & S1 & _).
+        apply check_miss. rewrite (sym_of_kind _ _ S1), K2. apply stmt_start_props in W2. tauto. }
+    destruct (stmt_complete_n eofl L (ssize a) a (le_n _) Wa) as (_ & Da).
+    destruct (Da ts mid HPa (fun _ => Hel)) as (a' & (f1 & Hf1) & Era).
+    destruct (IH mid Wss HP) as (ss' & (f2 & Hf2) & Erss).
+    exists (a' :: ss'). split; [|cbn [map]; rewrite Era, Erss; reflexivity].
+    exists (S (f1 + f2)). intros F HF. destruct F as [|F]; [lia|].
+    destruct Hfirst as (t0 & ts0 & ->). rewrite pprogram_S.
+    rewrite (pbind_nil _ _ _ _ (Hf1 F ltac:(lia))). rewrite (pbind_nil _ _ _ _ (Hf2 F ltac:(lia))).
+    reflexivity.
+Qed.
+
+(** the [ধরি] line rule ("the token after a declarator is on the line of the first
+    token after the keyword") is neutralised by putting all tokens on one line [L]
+    (any line, not necessarily that of the end-of-input token) *)
+Theorem pprogram_complete_gen eofl L ss :
+  Forall WFs ss ->
+  forall ts, map sym_of ts = flat_prog ss -> Forall (fun t => tline t = L) ts ->
+  exists f ss', pprogram eofl f ts = POk ss' [] [] /\ map erase_s ss' = map erase_s ss.
+Proof.
+  intros W ts Hts HL.
+  destruct (prog_complete_pre eofl L ss ts W) as (ss' & (f & Hf) & Er).
+  { exists ts. split; [rewrite app_nil_r; reflexivity|split; [exact Hts|exact HL]]. }
+  exists f, ss'. split; [apply Hf; lia|exact Er].
+Qed.
+
+(** ** D. every one-line token list whose symbols are the canonical writing of a
+    list of well-formed, line-free statements is accepted without diagnostics and
+    parsed into these statements (up to line numbers) *)
+Theorem pprogram_complete eofl ss :
+  Forall WFs ss -> map erase_s ss = ss ->
+  forall ts, map sym_of ts = flat_prog ss -> Forall (fun t => tline t = eofl) ts ->
+  exists f ss', pprogram eofl f ts = POk ss' [] [] /\ map erase_s ss' = ss.
+Proof.
+  intros W He ts Hts HL. destruct (pprogram_complete_gen eofl eofl ss W ts Hts HL) as (f & ss' & H & Er).
+  exists f, ss'. split; [exact H|]. rewrite Er. exact He.
+Qed.
+
+(** [ফর (;;)]: an absent condition is read as the literal [সত্য] on line 0 *)
+Lemma for_absent_condition eofl l :
+  let tok k := mkTok k [] LNone l in
+  pstmt eofl 10 [tok TFOR; tok TLEFT_PAREN; tok TSEMICOLON; tok TSEMICOLON; tok TRIGHT_PAREN;
+                 tok TBREAK; tok TSEMICOLON]
+  = POk (SFor None (ELit (LitBool true) 0%N) None (SBreak l)) [] [].
+Proof. reflexivity. Qed.
+
+(** ** Uniqueness of the statement list of a token sequence *)
+
+Ltac gsyms :=
+  repeat first [ assumption
+               | apply Forall_nil
+               | apply Forall_app; split
+               | apply Forall_cons
+               | (intros E0; discriminate E0)
+               | apply good_Sym; reflexivity ].
+
+Lemma WFfull_good e : WFfull e -> Forall good_sym (flat_e e).
+Proof. apply WF_good_syms_all. Qed.
+
+Lemma WFopt_good v : WFopt v -> Forall good_sym (match v with Some e => flat_e e | None => [] end).
+Proof. destruct v; [apply WFfull_good|constructor]. Qed.
+
+Lemma WFd_good d : WFd d -> Forall good_sym (flat_d d).
+Proof.
+  destruct d as [[x init] ln]. intros (_ & W). cbn [flat_d]. destruct init as [e|]; gsyms.
+  apply WFfull_good, W.
+Qed.
+
+Lemma WFds_good ds : Forall WFd ds -> Forall good_sym (join_comma (map flat_d ds)).
+Proof.
+  intros W. apply Forall_join_comma; [apply good_Sym; reflexivity|].
+  apply Forall_map. eapply Forall_impl; [|exact W]. intros d. apply WFd_good.
+Qed.
+
+Lemma concat_good (l : list (list tsym)) : Forall (Forall good_sym) l -> Forall good_sym (concat l).
+Proof. induction 1; cbn [concat]; [constructor|apply Forall_app; split; assumption]. Qed.
+
+Lemma WFs_good : forall n s, ssize s <= n -> WFs s -> Forall good_sym (flat_s s).
+Proof.
+  induction n as [|n IH]; intros s Hs W. { destruct s; simpl in Hs; lia. }
+  assert (IHl : forall ss, list_sum (map ssize ss) <= n -> Forall WFs ss -> Forall good_sym (concat (map flat_s ss))).
+  { intros ss Hss Wss. apply concat_good. apply Forall_map. apply Forall_forall. intros x Hx.
+    rewrite Forall_forall in Wss. apply IH; [|apply Wss, Hx]. pose proof (ssize_in x ss Hx). lia. }
+  pose proof (WFs_cases s W) as Wc.
+  destruct s as [e|e|d|ds|ss|c t [el|]|c b|init c inc b|ln|ln|ln v|name ps body]; cbn [flat_s]; simpl in Hs.
+  - destruct Wc as (We & _). gsyms. apply WFfull_good, We.
+  - gsyms. apply WFfull_good, Wc.
+  - gsyms. apply WFd_good, Wc.
+  - destruct Wc as (_ & Wds). gsyms. apply WFds_good, Wds.
+  - gsyms. apply IHl; [lia|exact Wc].
+  - destruct Wc as (Wcnd & Wt & _ & _ & We & _). gsyms.
+    + apply WFfull_good, Wcnd.
+    + apply IH; [lia|exact Wt].
+    + apply IH; [lia|exact We].
+  - destruct Wc as (Wcnd & Wt & _). gsyms.
+    + apply WFfull_good, Wcnd.
+    + apply IH; [lia|exact Wt].
+  - destruct Wc as (Wcnd & Wb & _). gsyms.
+    + apply WFfull_good, Wcnd.
+    + apply IH; [lia|exact Wb].
+  - destruct Wc as (Wi & Wcnd & Winc & Wb & _). gsyms.
+    + destruct init as [s0|]; [|gsyms].
+      destruct s0 as [e0| |d0|ds0| | | | | | | |]; cbn [WFinit] in Wi; try contradiction; cbn [flat_s]; gsyms.
+      * apply WFfull_good, Wi.
+      * apply WFd_good, Wi.
+      * apply WFds_good, Wi.
+    + apply WFfull_good, Wcnd.
+    + apply WFopt_good, Winc.
+    + apply IH; [lia|exact Wb].
+  - gsyms.
+  - gsyms.
+  - gsyms. apply WFopt_good, Wc.
+  - destruct Wc as (_ & _ & Wb). gsyms.
+    + apply Forall_join_comma; [apply good_Sym; reflexivity|]. apply Forall_map.
+      apply Forall_forall. intros p _. gsyms.
+    + apply IHl; [lia|exact Wb].
+Qed.
+
+Lemma WFprog_good ss : Forall WFs ss -> Forall good_sym (flat_prog ss).
+Proof.
+  intros W. apply concat_good. apply Forall_map. eapply Forall_impl; [|exact W].
+  intros s Ws. apply (WFs_good (ssize s) s (le_n _) Ws).
+Qed.
+
+Theorem prog_unique_gen ss1 ss2 :
+  Forall WFs ss1 -> Forall WFs ss2 -> flat_prog ss1 = flat_prog ss2 -> map erase_s ss1 = map erase_s ss2.
+Proof.
+  intros W1 W2 E.
+  pose (ts := map (tok_of_sym 0%N) (flat_prog ss1)).
+  assert (Hts : map sym_of ts = flat_prog ss1) by (apply map_sym_of_tok_of_sym, WFprog_good, W1).
+  assert (HL : Forall (fun t => tline t = 0%N) ts).
+  { apply Forall_map. apply Forall_forall. intros x _. apply tline_tok_of_sym. }
+  destruct (pprogram_complete_gen 0%N 0%N ss1 W1 ts Hts HL) as (f1 & a1 & H1 & Er1).
+  rewrite E in Hts.
+  destruct (pprogram_complete_gen 0%N 0%N ss2 W2 ts Hts HL) as (f2 & a2 & H2 & Er2).
+  pose proof (pprogram_mono_ok _ _ (f1 + f2) _ _ _ _ H1 ltac:(lia)) as M1.
+  pose proof (pprogram_mono_ok _ _ (f1 + f2) _ _ _ _ H2 ltac:(lia)) as M2.
+  rewrite M1 in M2. injection M2 as <-. rewrite <- Er1, <- Er2. reflexivity.
+Qed.
+
+(** two well-formed line-free programs with the same canonical writing are equal *)
+Theorem prog_unique ss1 ss2 :
+  Forall WFs ss1 -> Forall WFs ss2 -> map erase_s ss1 = ss1 -> map erase_s ss2 = ss2 ->
+  flat_prog ss1 = flat_prog ss2 -> ss1 = ss2.
+Proof. intros W1 W2 E1 E2 E. rewrite <- E1, <- E2. apply prog_unique_gen; assumption. Qed.
+
 Print Assumptions pexpr_complete.
 Print Assumptions tree_unique.
+Print Assumptions pprogram_complete.
+Print Assumptions prog_unique.
